@@ -38,6 +38,12 @@ def main(argv):
             from common import REPO
             tb = traceback.extract_tb(e.__traceback__)
             impl_frames = [f for f in tb if os.path.abspath(f.filename).startswith(str(REPO) + os.sep)]
+            if not impl_frames and isinstance(e, AttributeError) and "causationentropy" in str(e) and "has no attribute" in str(e):
+                # a name inside the implementation that the tie observes (an instrumentation seam, a private helper) no longer exists:
+                # the correspondence cannot be established on this tree -- a broken tie, not a tool failure and not a failing input
+                run.corr_fail("seam", {"missing": str(e)}, "the module attribute the harness observes", "absent",
+                              "the correspondence cannot be established on this tree (no conclusion about the property)")
+                return run.finish()
             remote_tb = getattr(getattr(e, "__cause__", None), "tb", "") or ""
             if not impl_frames and (str(REPO) + os.sep) in remote_tb:
                 # the exception was raised by the implementation inside a worker process (concurrent.futures keeps its traceback as text)
